@@ -148,6 +148,13 @@ impl<S: Read + Write> RdpClient<S> {
     pub fn shutdown(&mut self) -> RdpResult<()> {
         self.mcs.shutdown()
     }
+
+    /// Number of bytes received and decrypted but not yet read.
+    /// When not zero a `read` will not wait for the socket, and a
+    /// select on the socket will not report these bytes
+    pub fn buffered_read_size(&self) -> usize {
+        self.mcs.buffered_read_size()
+    }
 }
 
 pub struct Connector {
